@@ -84,6 +84,17 @@ def gen(rng, tier):
             for drop in sorted(ids)[:3]:
                 st3 = [e for e in st if e[0] != drop]
                 cases.append({"op": "evaluate", "input": [fn, st3], "stream": "missing/" + fn[0]})
+    # a factor is missing from the state while the OTHER factor of the same term has the value (+/-)0: the evaluation must
+    # still fail (no short-circuit on a zero partial product), in every message kind and for either factor
+    for k in range(12 if tier == "quick" else 120):
+        a, b = rng.sample(range(0, 12), 2)
+        zero = f64(rng.choice([0.0, -0.0]))
+        c = f64(G.dyadic(rng, 4, 1, nonzero=True))
+        for fn in (["quad", [[a], [b], [c], []]], ["quad", [[b], [a], [c], [[[], f64(1.0)]]]],
+                   ["poly", [[[a, b], c]]], ["poly", [[[b, a, a], c], [[], f64(0.5)]]],
+                   ["quad", [[a, a], [b, a], [c, c], []]]):
+            cases.append({"op": "evaluate", "input": [fn, [[a, zero]]], "stream": "missing/zero-partner"})
+            cases.append({"op": "evaluate", "input": [fn, [[a, zero], [b, f64(2.0)]]], "stream": "dyadic/zero-partner"})
     # every placement of the largest legal id in a quadratic message (row, column, diagonal, linear part only)
     M = 2 ** 64 - 1
     for j in (3, M - 1):
